@@ -17,13 +17,13 @@ const farStep = uint64(1) << 62
 // ---------------------------------------------------------------- workload
 
 type c18Meta struct {
-	Policy   string
-	Clients  int
-	Shared   string
-	Focus    []string
-	Faulted  bool
-	Gomax    int
-	Pins     []string
+	Policy  string
+	Clients int
+	Shared  string
+	Focus   []string
+	Faulted bool
+	Gomax   int
+	Pins    []string
 }
 
 // genC18 draws the workload of one run (no schedule yet).
@@ -61,7 +61,7 @@ func genC18(seed uint64, idx int, thorough bool) (spec.Run, c18Meta) {
 	if nClients > 12 {
 		maxDim = 12
 	}
-	run := spec.Run{Mode: "sched", Seed: seed, Gomaxprocs: meta.Gomax}
+	run := spec.Run{Mode: "sched", Seed: seed, Gomaxprocs: meta.Gomax, SortMaps: true}
 	for c := 0; c < nClients; c++ {
 		cr := wr.Child(uint64(100 + c))
 		nOps := 1
@@ -187,12 +187,13 @@ type refEntry struct {
 }
 
 type refCache struct {
-	mu      sync.Mutex
-	m       map[string]*refEntry
-	b       *Build
-	variant string
-	dirSeq  int
-	stepCap uint64
+	mu       sync.Mutex
+	m        map[string]*refEntry
+	b        *Build
+	variant  string
+	dirSeq   int
+	stepCap  uint64
+	sortMaps bool
 }
 
 func newRefCache(b *Build, variant string) *refCache {
@@ -227,6 +228,7 @@ func (rc *refCache) fill(ops []spec.Op, procs int) {
 		op := byKey[k]
 		dir := filepath.Join(rc.b.Scratch, fmt.Sprintf("ref-%d", base+i))
 		r := soloRun(op, rc.stepCap)
+		r.SortMaps = rc.sortMaps
 		t0 := time.Now()
 		res, err := rc.b.exec(rc.variant, &r, dir, 5*time.Minute)
 		os.RemoveAll(dir)
@@ -536,16 +538,16 @@ func plan(b *Build, run *spec.Run, meta *c18Meta, rc *refCache, seed uint64) {
 // ---------------------------------------------------------------- evaluation
 
 type c18Outcome struct {
-	viols      []Violation
-	switches   int
-	ilvHash    string
-	steps      uint64
-	fired      map[string]int
-	races      int
-	sharedChg  int
+	viols        []Violation
+	switches     int
+	ilvHash      string
+	steps        uint64
+	fired        map[string]int
+	races        int
+	sharedChg    int
 	soloUnstable int
-	wallS      float64
-	infra      string
+	wallS        float64
+	infra        string
 }
 
 // evalC18 executes one planned run and applies the oracles.
@@ -680,6 +682,7 @@ func checkC18(o checkOpts) int {
 		runs[i], metas[i] = genC18(s, i, thorough)
 	}
 	rc := newRefCache(b, "plain")
+	rc.sortMaps = true
 	t0 := time.Now()
 	ops := collectOps(runs)
 	rc.fill(ops, o.procs)
@@ -793,32 +796,32 @@ func checkC18(o checkOpts) int {
 	}
 	ev := &Evidence{PropertyID: "C18", Tier: o.tier, Seed: int64(o.seed), Level: "exploration", WallS: wall, Violations: nViol,
 		Coverage: map[string]interface{}{
-			"evaluations":         N,
-			"distinct_nontrivial": len(ilv),
-			"rule": "one evaluation = one worker process: 2..64 simulated clients calling Encode/Decode on registry codec instances (and private low-level objects) under one explicit serial schedule drawn from VERIF_SEED (pin-and-sweep / round-robin / PCT / random-walk / sequential), race detector on; distinct = distinct SHA of the executed switch list projected to (task, site); a run is non-trivial when at least one context switch happened inside library code",
-			"samples":             samples,
-			"runs_per_hour":       float64(N) / runWall * 3600,
-			"simulated_steps":     steps,
-			"scheduler_switches":  switches,
+			"evaluations":            N,
+			"distinct_nontrivial":    len(ilv),
+			"rule":                   "one evaluation = one worker process: 2..64 simulated clients calling Encode/Decode on registry codec instances (and private low-level objects) under one explicit serial schedule drawn from VERIF_SEED (pin-and-sweep / round-robin / PCT / random-walk / sequential), race detector on; distinct = distinct SHA of the executed switch list projected to (task, site); a run is non-trivial when at least one context switch happened inside library code",
+			"samples":                samples,
+			"runs_per_hour":          float64(N) / runWall * 3600,
+			"simulated_steps":        steps,
+			"scheduler_switches":     switches,
 			"distinct_interleavings": len(ilv),
-			"policies":            policies.snapshot(),
-			"fault_kinds_fired":   fired.snapshot(),
-			"race_reports_raw":    races,
-			"distinct_operations": len(rc.m),
-			"coverage_cells_hit":  len(cover),
-			"coverage_holes":      holes,
+			"policies":               policies.snapshot(),
+			"fault_kinds_fired":      fired.snapshot(),
+			"race_reports_raw":       races,
+			"distinct_operations":    len(rc.m),
+			"coverage_cells_hit":     len(cover),
+			"coverage_holes":         holes,
 			"probes": map[string]interface{}{
 				"shared_parameter_objects_changed_value": sharedChg,
 			},
 			"known_findings_matched": knownMatched,
 			"components": map[string]interface{}{
-				"real":      []string{"all repository packages (instrumented copy of the working tree)", "go-dicom codec.Registry, transfer.Syntax, BaseParameters, imagetypes", "Go runtime + race detector (ThreadSanitizer)"},
-				"simulated": []string{"caller goroutines and their schedule (serial baton over raw pipe syscalls)", "PixelData source and sink with fault plans"},
+				"real":          []string{"all repository packages (instrumented copy of the working tree)", "go-dicom codec.Registry, transfer.Syntax, BaseParameters, imagetypes", "Go runtime + race detector (ThreadSanitizer)"},
+				"simulated":     []string{"caller goroutines and their schedule (serial baton over raw pipe syscalls)", "PixelData source and sink with fault plans"},
 				"not_exercised": []string{"go-dicom Transcoder and dataset layer"},
 			},
-			"build_s":       b.BuildS,
-			"instrumented":  map[string]interface{}{"sites": len(b.Table.Sites), "hot_sites": len(b.hot), "packages": len(b.Table.Packages), "degraded": b.Table.Degraded},
-			"tree":          b.Tree,
+			"build_s":      b.BuildS,
+			"instrumented": map[string]interface{}{"sites": len(b.Table.Sites), "hot_sites": len(b.hot), "packages": len(b.Table.Packages), "degraded": b.Table.Degraded},
+			"tree":         b.Tree,
 		},
 		Assumptions: []string{
 			"a serialised interleaving is a legal execution; ThreadSanitizer sees the client goroutines as unordered because baton hand-offs are raw syscalls it does not model",
